@@ -115,7 +115,7 @@ impl Sut {
         run.count_n("ticks:link_ticks", seen.len() as u64);
         let itxt: Vec<String> = seen.iter().map(|li| format!("I {} {} {} {} {}", li.id, fl(li.rtt), li.bytes, z(li.nak as i128), fl(li.bps))).collect();
         self.ops.push(format!("T {} [{}]", now, itxt.join(";")));
-        self.obs.push(format!("O [{}] {}", ltxt.join(";"), zlist(keys.iter().map(|&k| k as i128))));
+        self.obs.push(format!("TO [{}] {}", ltxt.join(";"), zlist(keys.iter().map(|&k| k as i128))));
         for ((idx, _), c) in inputs.iter().zip(present.into_iter()) {
             self.pool[*idx] = Some(c);
         }
